@@ -501,6 +501,11 @@ pub fn check(case: &Case, res: &RunResult, status: &str) -> Vec<(String, String)
         continue;
       }
       let zero = (is_send(&o.form) && o.form.contains("batch") && o.vals.is_empty()) || (is_recv(&o.form) && o.form.contains("batch") && o.n == 0);
+      if o.closed_at_call && zero {
+        // zero-size request on a closed handle: either answer (n:0 or the closed error) is acceptable, and no
+        // other conclusion is drawn from it
+        continue;
+      }
       if o.closed_at_call && !zero {
         let want = if is_send(&o.form) { "err:closed" } else { "err:disconnected" };
         if !r.starts_with(want) {
@@ -571,7 +576,8 @@ pub fn check(case: &Case, res: &RunResult, status: &str) -> Vec<(String, String)
 
   let complete = status == "ok";
   // C01 (rendezvous): an ok send means a receiver has the value
-  if rdv && complete {
+  // (also judged at a deadlock: a parked rendezvous receive holds no value)
+  if rdv && (complete || status.starts_with("deadlock")) {
     for (v, (ri, sk)) in &sent_ok {
       if !recv_by.contains_key(v) {
         let s = &ops[*sk];
@@ -606,7 +612,7 @@ pub fn check(case: &Case, res: &RunResult, status: &str) -> Vec<(String, String)
         continue;
       }
       if BLOCKING_RECV.contains(&o.form.as_str()) {
-        if !spmc && !unreceived.is_empty() {
+        if !spmc && !rdv && !unreceived.is_empty() {
           fire(
             format!("{}:{}:blocked-with-item-available", o.sfl, o.form),
             format!("{} on {} never returned although value(s) {:?} were sent ok and never received; {}", o.form, o.handle, unreceived, extra),
